@@ -50,7 +50,12 @@ namespace awkward {
 
   int64_t
   TupleBuilder::length() const {
-    return length_;
+    return length_ == -1 ? 0 : length_;
+  }
+
+  bool
+  TupleBuilder::fresh() const {
+    return length_ == -1;
   }
 
   void
